@@ -197,7 +197,13 @@ func (self *BinaryConv) unmarshalSingular(ctx context.Context, resp http.Respons
 			// JSON has no representation for NaN and Infinity (the encoder would emit nothing)
 			return wrapError(meta.ErrConvert, fmt.Sprintf("unsupported non-finite float value %v", v), nil)
 		}
-		*out = json.EncodeFloat64(*out, float64(v))
+		if v == 0 && math.Signbit(float64(v)) {
+			// the float encoder prints negative zero as the integer literal -0, which JSON->Protobuf
+			// converters (including conv/j2p) read back as integer 0 and turn into +0.0
+			*out = append(*out, "-0.0"...)
+		} else {
+			*out = json.EncodeFloat64(*out, float64(v))
+		}
 	case proto.DOUBLE:
 		v, e := p.ReadDouble()
 		if e != nil {
@@ -207,7 +213,11 @@ func (self *BinaryConv) unmarshalSingular(ctx context.Context, resp http.Respons
 			// JSON has no representation for NaN and Infinity (the encoder would emit nothing)
 			return wrapError(meta.ErrConvert, fmt.Sprintf("unsupported non-finite double value %v", v), nil)
 		}
-		*out = json.EncodeFloat64(*out, float64(v))
+		if v == 0 && math.Signbit(v) {
+			*out = append(*out, "-0.0"...)
+		} else {
+			*out = json.EncodeFloat64(*out, float64(v))
+		}
 	case proto.STRING:
 		v, e := p.ReadString(false)
 		if e != nil {
